@@ -94,7 +94,7 @@ SUBCHECKS = [
              budget={"quick": 15, "thorough": 300}, shards={"quick": 3, "thorough": 16}, modes=E2E_MODES),
     SubCheck(name="per_round_statistics_and_optimiser_arguments",
              strategy=lambda: gen.e2e_config(betas=(0.0, 0.5, 2.0, 10.0, 50.0, 400.0), limits=(2, 3, 5, 30),
-                                             lam_forms=("scalar", "scalar", "const_matrix", "random_matrix", "asymmetric_matrix")), execute=execute,
+                                             lam_forms=("scalar", "scalar", "const_matrix", "random_matrix", "asymmetric_matrix"), allow_degenerate=True), execute=execute,
              budget={"quick": 160, "thorough": 4000}, shards={"quick": 16, "thorough": 8}, modes=E2E_MODES,
              min_nontrivial_fraction=0.25),
 ]
